@@ -27,7 +27,7 @@ func (c12) Size(tier string) Size {
 	return Size{Batches: 4, Cases: 10}
 }
 func (c12) Rule() string {
-	return "binary built with -race (GORACE halt_on_error=0, log files counted, not the exit code). case = scenario: random schema of struct-backed and soft types (incl. soft types with nil maps) built once, then per goroutine a private list of operations from {NewURLFromRaw, NewRequest, UnmarshalDocument, UnmarshalPartialResource, GetType(n).New()+Set, MarshalDocument of a goroutine-private document made of resources of the shared types, GetType, HasType, Check, Rels}. Phase 0 (cold start): several brand-new copies of the schema are FIRST used by up to 16 goroutines at once (each starts by creating a resource of every type), so lazily initialised shared state is initialised under contention. Phase A (sequential): every op once, result fingerprint recorded, deep reflective fingerprint of the schema (exported and unexported state) compared before/after EACH op. Phase B: G in {2,4,8,16} goroutines with GOMAXPROCS in {2,16}, released together, each running its list N times into private buffers (no shared monitor state). Phase C: every concurrent result equals its sequential baseline; schema fingerprint unchanged; race log files parsed and deduplicated by the pair of outermost library frames. Non-trivial = scenario with >= 2 goroutines and >= 3 distinct op kinds; distinct = scenario hash."
+	return "binary built with -race (GORACE halt_on_error=0, log files counted, not the exit code). case = scenario: random schema of struct-backed and soft types (incl. soft types with nil maps) built once, then per goroutine a private list of operations from {NewURLFromRaw, NewRequest, UnmarshalDocument, UnmarshalPartialResource, GetType(n).New()+Set, MarshalDocument of a goroutine-private document made of resources of the shared types, GetType, HasType, Check, Rels}. Phase 0 (cold start): several brand-new copies of the schema are FIRST used by up to 16 goroutines at once (each starts by creating a resource of every type), so lazily initialised shared state is initialised under contention. Phase A (sequential): every op once, result fingerprint recorded, deep reflective fingerprint of the schema (exported and unexported state) compared before/after EACH op. Phase B: G in {2,4,8,16} goroutines with GOMAXPROCS in {2,16}, released together, each running its list N times into private buffers (no shared monitor state). Phase C: every concurrent result equals its sequential baseline; schema fingerprint unchanged; race log files parsed and deduplicated by the pair of outermost library frames. Payloads carry a resource-level meta object; objects returned by NewURLFromRaw / NewRequest / Unmarshal* are kept by the goroutine and read again three calls later (a returned object belongs to its caller: a later call must not change it), sequentially and concurrently. Non-trivial = scenario with >= 2 goroutines and >= 3 distinct op kinds; distinct = scenario hash."
 }
 func (c12) Assumptions() []string {
 	return []string{"the race detector is happens-before based: it reports races between accesses the workload performs, whatever their timing, and nothing about accesses not performed",
@@ -148,35 +148,81 @@ var c12kinds = []string{"NewURLFromRaw", "NewRequest", "UnmarshalDocument", "Unm
 
 // exec runs one op against the shared schema and returns a result fingerprint.
 func (o *c12op) exec(s *SchemaSpec, schema *jsonapi.Schema) string {
-	switch o.Kind {
-	case "NewURLFromRaw":
-		u, err := jsonapi.NewURLFromRaw(schema, o.Raw)
-		if err != nil {
-			return "err" // which of several faults is reported first depends on map order, not on concurrency
+	out, _ := o.exec2(s, schema)
+	return out
+}
+
+// c12kept is a result object a goroutine keeps and reads again after its NEXT calls: what a call returned belongs to
+// the caller, so a later call (by anybody) must not change it.
+type c12kept struct {
+	fp    string
+	again func() string
+	kind  string
+}
+
+// c12keeper re-reads each kept result three calls later.
+type c12keeper struct{ ring []c12kept }
+
+func (k *c12keeper) push(out string, again func() string, kind string) string {
+	if again == nil {
+		return out
+	}
+	k.ring = append(k.ring, c12kept{out, again, kind})
+	if len(k.ring) > 3 {
+		old := k.ring[0]
+		k.ring = k.ring[1:]
+		var now string
+		if pi := Guard(func() { now = old.again() }); pi != nil {
+			now = "panic:" + pi.Frame
 		}
-		return u.String()
+		if now != old.fp {
+			return "EARLIER-RESULT-CHANGED/" + old.kind + ": was " + clip(old.fp, 300) + " now " + clip(now, 300)
+		}
+	}
+	return out
+}
+
+// exec2 also returns a closure that reads the returned objects again (nil when the op returns no object).
+func (o *c12op) exec2(s *SchemaSpec, schema *jsonapi.Schema) (string, func() string) {
+	switch o.Kind {
 	case "NewRequest":
 		hr, herr := http.NewRequest("POST", o.Raw, strings.NewReader(o.Body))
 		if herr != nil {
-			return "httperr"
+			return "httperr", nil
 		}
 		req, err := jsonapi.NewRequest(hr, schema)
 		if err != nil {
-			return "err"
+			return "err", nil
 		}
-		return req.URL.String() + "|" + docFingerprint(req.Doc)
+		again := func() string { return req.URL.String() + "|" + docFingerprint(req.Doc) }
+		return again(), again
 	case "UnmarshalDocument":
 		doc, err := jsonapi.UnmarshalDocument([]byte(o.Body), schema)
 		if err != nil {
-			return "err"
+			return "err", nil
 		}
-		return docFingerprint(doc)
+		again := func() string { return docFingerprint(doc) }
+		return again(), again
 	case "UnmarshalPartialResource":
 		res, err := jsonapi.UnmarshalPartialResource([]byte(o.Body), schema)
 		if err != nil {
-			return "err"
+			return "err", nil
 		}
-		return resFingerprint(res)
+		again := func() string { return resFingerprint(res) }
+		return again(), again
+	case "NewURLFromRaw":
+		u, err := jsonapi.NewURLFromRaw(schema, o.Raw)
+		if err != nil {
+			return "err", nil // which of several faults is reported first depends on map order, not on concurrency
+		}
+		again := func() string { return u.String() }
+		return again(), again
+	}
+	return o.execRest(s, schema), nil
+}
+
+func (o *c12op) execRest(s *SchemaSpec, schema *jsonapi.Schema) string {
+	switch o.Kind {
 	case "New+Set":
 		typ := schema.GetType(o.Type)
 		res := typ.New()
@@ -283,6 +329,12 @@ func resFingerprint(res jsonapi.Resource) string {
 	for _, k := range sortedKeys(s.Vals) {
 		fmt.Fprintf(&sb, " %s=%s", k, s.Vals[k])
 	}
+	if mh, ok := res.(jsonapi.MetaHolder); ok {
+		meta := mh.Meta()
+		for _, k := range sortedKeys(meta) {
+			fmt.Fprintf(&sb, " meta.%s=%v", k, meta[k])
+		}
+	}
 	return sb.String()
 }
 
@@ -338,6 +390,9 @@ func (m c12) genOps(r *RNG, s *SchemaSpec, n int) []c12op {
 						p.Rels[rl.Name] = fmt.Sprintf(`[{"id":"b","type":%q},{"id":"a","type":%q}]`, rl.ToType, rl.ToType)
 					}
 				}
+			}
+			if r.Chance(2, 3) {
+				p.Meta = fmt.Sprintf(`{"who":"op-%d","k%d":%d,"flag":%v}`, i, r.Intn(5), r.Intn(1000), r.Bool())
 			}
 			body := string(p.bytes())
 			if k != "UnmarshalPartialResource" {
@@ -413,7 +468,7 @@ func (m c12) Case(c *Ctx, r *RNG) {
 	cold := make([][][]string, coldRounds)
 	for round := 0; round < coldRounds; round++ {
 		var fresh *jsonapi.Schema
-		if pi := Guard(func() { fresh = buildSchema(s) }); pi != nil {
+		if pi := Guard(func() { fresh = buildSchemaPlain(s) }); pi != nil {
 			c.Violate("panic@"+pi.Frame+"/build-schema", "%s", pi)
 			return
 		}
@@ -428,14 +483,16 @@ func (m c12) Case(c *Ctx, r *RNG) {
 			go func(g int) {
 				defer wg.Done()
 				buf := make([]string, 0, len(lists[g]))
+				keep := &c12keeper{}
 				<-start
 				for i := range lists[g] {
 					op := &lists[g][i]
 					var out string
-					if pi := Guard(func() { out = op.exec(s, fresh) }); pi != nil {
+					var again func() string
+					if pi := Guard(func() { out, again = op.exec2(s, fresh) }); pi != nil {
 						out = "panic:" + pi.Frame + ":" + panicClass(pi.Val)
 					}
-					buf = append(buf, out)
+					buf = append(buf, keep.push(out, again, op.Kind))
 				}
 				res[g] = buf
 			}(g)
@@ -463,12 +520,21 @@ func (m c12) Case(c *Ctx, r *RNG) {
 	fp0 := schemaFingerprint(schema)
 	for g := range lists {
 		base[g] = make([]string, len(lists[g]))
+		keep := &c12keeper{}
 		for i := range lists[g] {
 			op := &lists[g][i]
 			var res string
-			if pi := Guard(func() { res = op.exec(s, schema) }); pi != nil {
+			var again func() string
+			if pi := Guard(func() { res, again = op.exec2(s, schema) }); pi != nil {
 				res = "panic:" + pi.Frame + ":" + panicClass(pi.Val)
 				c.Count("baseline_panics") // other properties judge panics
+			}
+			if again != nil {
+				c.Count("results_kept_and_read_again")
+			}
+			if kept := keep.push(res, again, op.Kind); strings.HasPrefix(kept, "EARLIER-RESULT-CHANGED/") {
+				c.Violate("earlier-result-changed/sequential/"+strings.TrimPrefix(strings.SplitN(kept, ":", 2)[0], "EARLIER-RESULT-CHANGED/"), "an object returned by an earlier call changed after later calls on the same schema (one goroutine): %s", kept)
+				return
 			}
 			base[g][i] = res
 			c.Count("sequential_ops")
@@ -483,6 +549,10 @@ func (m c12) Case(c *Ctx, r *RNG) {
 	for round := range cold {
 		for g := range cold[round] {
 			for i, got := range cold[round][g] {
+				if strings.HasPrefix(got, "EARLIER-RESULT-CHANGED/") {
+					c.Violate("earlier-result-changed/concurrent", "cold round %d goroutine %d: %s", round, g, got)
+					return
+				}
 				if got != base[g][i] {
 					c.Violate("concurrent-result-differs/cold-start/"+lists[g][i].Kind, "cold round %d goroutine %d got %q for %s, sequentially %q; schema %s", round, g, clip(got, 300), lists[g][i].Kind, clip(base[g][i], 300), desc())
 					return
@@ -507,15 +577,17 @@ func (m c12) Case(c *Ctx, r *RNG) {
 				go func(g int) {
 					defer wg.Done()
 					buf := make([]string, 0, reps*len(lists[g]))
+					keep := &c12keeper{}
 					<-start
 					for rep := 0; rep < reps; rep++ {
 						for i := range lists[g] {
 							op := &lists[g][i]
 							var res string
-							if pi := Guard(func() { res = op.exec(s, schema) }); pi != nil {
+							var again func() string
+							if pi := Guard(func() { res, again = op.exec2(s, schema) }); pi != nil {
 								res = "panic:" + pi.Frame + ":" + panicClass(pi.Val)
 							}
-							buf = append(buf, res)
+							buf = append(buf, keep.push(res, again, op.Kind))
 						}
 					}
 					results[g] = buf
@@ -528,6 +600,10 @@ func (m c12) Case(c *Ctx, r *RNG) {
 			for g := 0; g < G; g++ {
 				for j, got := range results[g] {
 					i := j % len(lists[g])
+					if strings.HasPrefix(got, "EARLIER-RESULT-CHANGED/") {
+						c.Violate("earlier-result-changed/concurrent", "goroutine %d of %d (GOMAXPROCS %d): %s", g, G, procs, got)
+						return
+					}
 					if got != base[g][i] {
 						c.Violate("concurrent-result-differs/"+lists[g][i].Kind, "goroutine %d of %d (GOMAXPROCS %d) got %q for %s, sequentially %q; schema %s", g, G, procs, clip(got, 300), lists[g][i].Kind, clip(base[g][i], 300), desc())
 						return
